@@ -119,6 +119,22 @@ CLAIMS = {
         "documented argument forms - is outside the verifier's reach and is checked by a bounded stand-in on crafted table sets with single-fault corruptions (labelled bounded, not counted as proved).",
    note="Mixed level: proof for the name-order clause, bounded for the table clauses. Two defects found by the stand-in were repaired in /repo (known_findings.jsonl).",
    design="6 (C19)", technique="contract-based deductive verification (pyvc AST->VC, z3) for flatten_sns_names; bounded native stand-in for the pandas-dependent functions"),
+ "C01": dict(
+   text="Deductive proof from the real source, with the eigen-decomposition as an uninterpreted kernel, of ssi.ac2mp (poles = log(eigenvalue)/dt, frequency = |lambda|/2pi, damping = -Re lambda/|lambda|, "
+        "shape i = C v_i divided by its largest-magnitude component, that component reported as exactly 1) for symbolic state dimension and channel count, and of ssi.SSI_poles (loop invariant over symbolic "
+        "ordmax; step 1, no uncertainty): column c of the frequency, damping, shape and pole tables holds, row by row, the parameters of ONE eigenvalue of the order-c model, complex shapes kept complex, NaN below and in "
+        "column 0. The clause 'order 2m contains exactly the system's m conjugate pairs, and extraction returns them' is a numerical theorem about SVD/QR and is checked only by a bounded stand-in on noise-free "
+        "synthetic systems through SingleSetup (labelled bounded, not counted as proved).",
+   note="Mixed level: proof for the modal-parameter formulas and the table layout, bounded for exact recovery. Trusted: eig kernel, complex log / sqrt axioms, argmax contract.",
+   design="6 (C01)", technique="contract-based deductive verification (pyvc AST->VC, z3; kernels uninterpreted, loop invariant over the order loop); bounded native stand-in for the exact-recovery theorem"),
+ "C05": dict(
+   text="Deductive proof from the real source of plscf.rmfd2ac (block companion form: first block row -A_n^-1 A_{n-1..0} then a zero block, shifted identity below, C = B_i - B_n A_n^-1 A_i; loop invariant over symbolic "
+        "block count and channel counts), of plscf.ac2mp_poly for both estimators (poles = log(eigenvalue)/dt, roots with positive real part blanked in the pole, frequency, damping and shape tables, frequency and damping "
+        "formulas, shapes normalised to a largest component of exactly 1) and of plscf.pLSCF_poles (orders enumerated 2 and 3: one companion form and one eigen-analysis per order from that order's own coefficient blocks, "
+        "column c = the poles of order c+1, NaN padding below, same NaN pattern in all tables). That pLSCF's normal equations reproduce the coefficients of an exactly rational spectrum is a least-squares theorem checked only by a "
+        "bounded stand-in (labelled bounded, not counted as proved).",
+   note="Mixed level: proof for companion form, pole map, blanking and table layout; bounded for coefficient recovery. Trusted: eig/solve kernels, complex log / sqrt axioms, lazy-sum calculus.",
+   design="6 (C05)", technique="contract-based deductive verification (pyvc AST->VC, z3; kernels uninterpreted, structured block indices, loop invariants); bounded native stand-in for coefficient recovery"),
 }
 NOT_APPLICABLE = {
  "C07": "accuracy tolerance (2.5 % / 15 %) of a floating-point FFT/peak-picking/regression pipeline: no contract over exact reals can state or discharge it (DESIGN.md section 8); its scale-invariance clause is covered under C08",
